@@ -947,9 +947,17 @@ class Table:
         # Read through OUR backend rather than pyarrow's S3 filesystem (#54).
         with data_file_manager.open_parquet_source(data_file.file_path) as src:
             if compute_expr is not None:
-                # pyarrow applies `filters` against all needed columns during the
-                # scan and returns only `columns`, so pushdown is correct here.
-                return pq.read_table(src, columns=columns, filters=compute_expr)
+                # Filter in memory, exactly like the verified branch above, then
+                # project. Handing the predicate to pyarrow's parquet reader
+                # (filters=) lets it skip row groups by their min/max statistics,
+                # and those ignore NaN: a row group holding {NaN, 0.5} has
+                # statistics [0.5, 0.5] and was skipped for `!= 0.5` (and not_in),
+                # dropping the NaN row that the filter matches - so scans with
+                # checksum verification off returned fewer rows than with it on.
+                table = pq.read_table(src).filter(compute_expr)
+                if columns is not None:
+                    table = table.select(columns)
+                return table
             return pq.read_table(src, columns=columns)
 
     def _scan_table(
